@@ -6,7 +6,7 @@ same operation sequences over a pool of container variables, and runs an indepen
 (ordered dict of str(tag) -> str | list of nested references) as the property oracle.
 
 Case syntax (JSON, symbolic so that a case replays):
-  tag   ["i", n] | ["s", text] | ["f", FTag member name] | ["o"] (None)
+  tag   ["i", n] | ["s", text] | ["f", FTag member name] | ["o"] (None) | ["x", kind, n] (an object == int n: float, bool, Decimal ...)
   value ["s", text] | ["i", n] | ["fl", repr] | ["e", enum class, member] | ["b", bool] | ["n"]
         | ["c", class name] | ["v", j] (copy of variable j passed as a plain value) | ["j", literal]
   dict  [[tag, value | ["L", [item, ...]]], ...]      item ["D", dict] | ["V", j] | ["B", literal]
@@ -105,10 +105,34 @@ def codes(s):
 # materialising a symbolic case: Python objects for the implementation, Sx terms for the model
 # ------------------------------------------------------------------------------------------
 
+def obj_tag(ts):
+    """["x", kind, n]: a tag given as a non-int, non-str object that COMPARES EQUAL to (and hashes like) the int n -
+    float n.0, bool, Decimal, Fraction, complex.  The library uses str(tag) only, so the model sees the string spelling
+    str(obj): "5.0", "True", "(5+0j)" are refused, Decimal(5) / Fraction(5) are the tag "5"."""
+    import decimal
+    import fractions
+    kind, n = ts[1], ts[2]
+    if kind == "float":
+        return float(n)
+    if kind == "bool":
+        return bool(n)
+    if kind == "dec":
+        return decimal.Decimal(n)
+    if kind == "dec1":
+        return decimal.Decimal("%d.0" % n)
+    if kind == "frac":
+        return fractions.Fraction(n)
+    if kind == "cplx":
+        return complex(n, 0)
+    raise ValueError(ts)
+
+
 def mk_tag(ts):
     k = ts[0]
     if k in ("i", "s"):
         return ts[1]
+    if k == "x":
+        return obj_tag(ts)
     if k == "f":
         return lib()["FTag"][ts[1]]
     return None
@@ -122,6 +146,8 @@ def tag_sx(ts):
         return [1, ts[1]]
     if k == "f":
         return [2, ts[1]]
+    if k == "x":
+        return [1, str(obj_tag(ts))]
     return [3, "None"]
 
 
@@ -627,7 +653,12 @@ class Ref:
             return c.tv_content() == self.pool[op[2]].tv_content()
         if k == "eqd":
             other = {}
+            seen = []
             for ts, vs in op[2]:
+                key = mk_tag(ts)
+                if any(key == s_ and hash(key) == hash(s_) for s_ in seen):
+                    continue                               # same dict key (78 == Decimal('78.0')): skipped by mk_pairs too
+                seen.append(key)
                 kk = ref_key(ts)
                 if kk in other:
                     raise Unjudged("dict with two spellings of one tag")
@@ -793,6 +824,10 @@ def spell(rng, key):
         opts = [["i", n], ["s", key]]
         if ftag_name(n):
             opts.append(["f", ftag_name(n)])
+        if rng.random() < 0.12:
+            # an object that is == the int tag (1 == 1.0 == True == Decimal(1)): same hash, different str()
+            kinds = ["float", "dec", "dec1", "frac", "cplx"] + (["bool"] * 3 if n in (0, 1) else [])
+            return ["x", rng.choice(kinds), n]
         return rng.choice(opts)
     return ["s", key]
 
@@ -1016,7 +1051,10 @@ def gen_op(rng, ref):
     if k == "query":
         if rng.random() < 0.3:
             return ["query", i, []]
-        return ["query", i, [gen_tag(rng, c, 0.6) for _ in range(rng.randrange(1, 5))]]
+        # query() is the one accessor that converts the tag OBJECT (int(t)), not its str(): object spellings are left
+        # to the other operations, whose contract is stated on str(tag)
+        ts = [gen_tag(rng, c, 0.6) for _ in range(rng.randrange(1, 5))]
+        return ["query", i, [["i", t[2]] if t[0] == "x" else t for t in ts]]
     if k == "eq":
         return ["eq", i, rng.randrange(NVARS)]
     if k == "eqd":
